@@ -226,6 +226,8 @@ package core
 //@   ensures forall k string :: has(proxyReq.Header, k) ==> !sensHeader(k) && !hopHeader(k)
 //@   ensures forall k string :: has(originalReq.Header, k) && !sensHeader(k) && !hopHeader(k) && !ollaHeader(k) ==> has(proxyReq.Header, k) && proxyReq.Header[k] == originalReq.Header[k]
 //@   ensures forall k string :: has(proxyReq.Header, k) && !ollaHeader(k) ==> has(originalReq.Header, k)
+//@   ensures originalReq.Host != "" ==> proxyReq.Host == originalReq.Host
+//@   ensures originalReq.Host == "" ==> proxyReq.Host == old(proxyReq.Host)
 // existing Via / X-Forwarded-For values are kept: the upstream value starts with strings.Join of ALL client values
 // (strings.Join contains every element: trusted model), Olla's own token is appended after them.
 // (Via: proved where it is written and again just before the last call, whose contract leaves every key other than
